@@ -147,10 +147,78 @@ func init() {
 			return
 		}
 		root := common.NewRand(seed)
-		for i := 0; i < n; i++ {
+		done := 0
+		if n >= c18ExhaustiveFrom {
+			// thorough tier: finite sub-spaces first, exhaustively
+			done = c18Exhaustive(func(c c18Case) {
+				c18Run(&c)
+				out.Emit(c)
+			})
+		}
+		for i := 0; i < n-done; i++ {
 			c := c18Gen(root, i)
 			c18Run(&c)
 			out.Emit(c)
 		}
 	}
+}
+
+// c18ExhaustiveFrom: case counts from which the run starts with the exhaustive
+// block (the thorough tier asks for 120000).
+const c18ExhaustiveFrom = 100000
+
+// c18Exhaustive enumerates, for one session and one middleware:
+//
+//	quota N=1..3:        every history of length 0..5 over {REQ,CLOSE}x{a,b,c}
+//	receive window 1..3: every history of length 0..8 over client EVENTx{x,y,z}
+//	send window 1..3:    every history of length 0..8 over server EVENTx{x,y,z}
+func c18Exhaustive(emit func(c18Case)) int {
+	total := 0
+	r := common.NewRand(1)
+	var rec func(kind string, n int64, alpha []mwOp, maxLen int, cur []mwOp)
+	rec = func(kind string, n int64, alpha []mwOp, maxLen int, cur []mwOp) {
+		ops := make([]mwOp, len(cur))
+		for i, o := range cur { // fresh message values per case
+			ops[i] = o
+			if o.C != nil {
+				c := *o.C
+				if c.E != nil {
+					e := *c.E
+					c.E = &e
+				}
+				ops[i].C = &c
+			}
+			if o.M != nil {
+				m := *o.M
+				if m.E != nil {
+					e := *m.E
+					m.E = &e
+				}
+				ops[i].M = &m
+			}
+		}
+		emit(c18Case{Mws: []mwSpec{{T: kind, N: n}}, NSess: 1, Ops: ops})
+		total++
+		if len(cur) == maxLen {
+			return
+		}
+		for _, a := range alpha {
+			rec(kind, n, alpha, maxLen, append(cur[:len(cur):len(cur)], a))
+		}
+	}
+	var qa, ra, sa []mwOp
+	for _, s := range c18Subs {
+		qa = append(qa, mwOp{D: "c", C: &mwCMsg{T: "REQ", Sub: s, Fs: []common.JFilter{}}})
+		qa = append(qa, mwOp{D: "c", C: &mwCMsg{T: "CLOSE", Sub: s}})
+	}
+	for _, id := range c18Evs {
+		ra = append(ra, mwOp{D: "c", C: &mwCMsg{T: "EVENT", E: c18Event(r, id)}})
+		sa = append(sa, mwOp{D: "s", M: &mwSMsg{T: "EVENT", Sub: "a", E: c18Event(r, id)}})
+	}
+	for n := int64(1); n <= 3; n++ {
+		rec("max_subs", n, qa, 5, nil)
+		rec("recv_unique", n, ra, 8, nil)
+		rec("send_unique", n, sa, 8, nil)
+	}
+	return total
 }
